@@ -33,6 +33,26 @@ partial def tyOf : Sexp → Option Ty
   | .list [.atom "typ", t] => (tyOf t).map .typ
   | _ => none
 
+/-- a version `(MAJ MIN PAT xPRE xBUILD)`: the arguments of `semver.NewVersion3` -/
+def verOf : List Sexp → Option Ver
+  | [ma, mi, pa, pre, bld] => do
+      let a ← ma.int?; let b ← mi.int?; let c ← pa.int?
+      let p ← pre.bytes?; let q ← bld.bytes?
+      if intOk a && intOk b && intOk c then newVersion3 a b c p q else none
+  | _ => none
+
+def boundOf : Sexp → Option Bound
+  | .list (.atom "eq" :: v) => (verOf v).map fun v => ⟨.eq, v⟩
+  | .list (.atom "ge" :: v) => (verOf v).map fun v => ⟨.ge, v⟩
+  | .list (.atom "gt" :: v) => (verOf v).map fun v => ⟨.gt, v⟩
+  | .list (.atom "le" :: v) => (verOf v).map fun v => ⟨.le, v⟩
+  | .list (.atom "lt" :: v) => (verOf v).map fun v => ⟨.lt, v⟩
+  | _ => none
+
+def arangeOf : Sexp → Option ARange
+  | .list [.atom "se", a, b] => do let x ← boundOf a; let y ← boundOf b; pure (.se x y)
+  | e => (boundOf e).map .simple
+
 partial def valOf : Sexp → Option Val
   | .list [.atom "u"] => some .undef
   | .list [.atom "d"] => some .dflt
@@ -60,6 +80,18 @@ partial def valOf : Sexp → Option Val
       let a ← s.int?; let b ← n.int?
       -- time.Unix normalises other nanosecond values; the harness only sends normalised ones
       if intOk a && 0 ≤ b && b < 1000000000 then some (.timestamp a b) else none
+  | .list [.atom "uri", s] => s.bytes?.map .uri
+  | .list (.atom "ver" :: v) => (verOf v).map .semver
+  | .list [.atom "vmin"] => some (.semver verMin)
+  | .list (.atom "vr" :: orig :: rs) => do
+      let o ← orig.bytes?; let rs ← rs.mapM arangeOf
+      if rs.isEmpty then none else some (.vrange o rs)
+  | .list [.atom "tn", a, n, m] => do let a ← a.bytes?; let n ← n.bytes?; let m ← m.bytes?; pure (mkTname a n m)
+  | .list (.atom "df" :: n :: as) => do let n ← n.bytes?; let as ← as.mapM valOf; pure (.deferred n as)
+  | .list [.atom "par", n, t, .atom "n", c] => do
+      let n ← n.bytes?; let t ← tyOf t; let c ← c.bool?; pure (.param n t false .undef c)
+  | .list [.atom "par", n, t, .list [.atom "v", v], c] => do
+      let n ← n.bytes?; let t ← tyOf t; let v ← valOf v; let c ← c.bool?; pure (.param n t true v c)
   | _ => none
 
 def hexB (bs : Bytes) : String := "x" ++ hexOfBytes bs
@@ -91,6 +123,14 @@ partial def valStr : Val → String
   | .typ t => "(t " ++ tyStr t ++ ")"
   | .timespan n => s!"(ts {n})"
   | .timestamp a b => s!"(tm {a} {b})"
+  | .uri s => "(uri " ++ hexB s ++ ")"
+  | .semver v => s!"(ver {v.major} {v.minor} {v.patch} " ++ (match v.pre with | none => "n" | some _ => hexB (preStr v)) ++ " " ++
+      hexB (buildStr v) ++ ")"
+  | .vrange o rs => "(vr " ++ hexB (rangeStr o rs) ++ " " ++ hexB (normStr rs) ++ ")"
+  | .tname a n m => "(tn " ++ hexB a ++ " " ++ hexB n ++ " " ++ hexB m ++ ")"
+  | .deferred n as => "(df " ++ hexB n ++ String.join (as.map fun v => " " ++ valStr v) ++ ")"
+  | .param n t h v c => "(par " ++ hexB n ++ " " ++ tyStr t ++ " " ++ (if h then "(v " ++ valStr v ++ ")" else "n") ++ " " ++
+      boolStr c ++ ")"
 
 def invalidKey : String := "reported PCORE_INVALID_MAP_KEY"
 
